@@ -92,6 +92,14 @@ def fromPublicPoint (E : Ext) (c : Curve) (x y : Int) (validate : Bool) : Res VK
   else if validate ∧ c.h ≠ 1 ∧ ¬ E.subgroupOk c x.toNat y.toNat then .error .malformedPoint
   else .ok ⟨c, x.toNat, y.toNat⟩
 
+/-- `VerifyingKey.from_public_point(point, curve, validate_point)` on a point OBJECT: `none` is `ellipticcurve.INFINITY`
+(refused with `MalformedPointError` since the repair F14 — before, the range check of `Public_key.__init__` raised
+`TypeError` on its `None` coordinates), `some (x, y)` a `PointJacobi` / `Point` reporting these affine coordinates -/
+def fromPublicPointObj (E : Ext) (c : Curve) (point : Option (Int × Int)) (validate : Bool) : Res VK :=
+  match point with
+  | none => .error .malformedPoint
+  | some (x, y) => fromPublicPoint E c x y validate
+
 /-- `ecdsa.point_is_valid(generator, x, y)` -/
 def pointIsValid (E : Ext) (c : Curve) (x y : Int) : Bool :=
   if ¬ (0 ≤ x ∧ x < c.p) ∨ ¬ (0 ≤ y ∧ y < c.p) then false
@@ -218,13 +226,13 @@ def VK.fromDer (E : Ext) (str : Bytes) : Res VK := do
 /-! ## SigningKey -/
 
 /-- `SigningKey.from_secret_exponent(secexp, curve)`.  `curve.generator * secexp` is the parameter `pubPoint`;
-when it is `INFINITY`, `PointJacobi.from_affine(INFINITY)` builds a point with `None` coordinates and the range
-check of `Public_key.__init__` raises `TypeError`. -/
+when it is `INFINITY`, `from_public_point` refuses it with `MalformedPointError` (F14; it was a `TypeError` from the
+range check of `Public_key.__init__` before). -/
 def SK.fromSecretExponent (E : Ext) (c : Curve) (secexp : Int) : Res SK :=
   if ¬ (1 ≤ secexp ∧ secexp < c.n) then .error .malformedPoint
   else
     match E.pubPoint c secexp.toNat with
-    | none => .error .typeError
+    | none => .error .malformedPoint
     | some (x, y) =>
       match fromPublicPoint E c x y false with
       | .error e => .error e
